@@ -190,6 +190,10 @@ def clause_d(ctx, P):
 def run(ctx, P):
     from . import r2
     r2.purges_keep_other_commands(ctx, P, "C19e")
+    r2.followup_chain_not_restarted(ctx, P, "C19f")
+    r2.verify_chain_is_finite(ctx, P, "C19g")
+    from . import c13
+    c13.clause_c(ctx, P)          # stopping a search ends its schedule (shared with C13)
     clause_a(ctx, P)
     clause_b(ctx, P)
     clause_c(ctx, P)
